@@ -185,6 +185,17 @@ STMTS += [
 ]
 
 
+# every statement field that holds a block: names read or bound only in an else / elif / finally / handler clause
+STMTS += [
+    "for i6 in seq6:\n    pass\nelse:\n    fe6 = ge6",
+    "while c7:\n    c7 = 0\nelse:\n    we7 = ge7",
+    "try:\n    pass\nexcept E8:\n    h8 = g8\nelse:\n    te8 = ge8\nfinally:\n    tf8 = gf8",
+    "if p9:\n    pass\nelif q9:\n    ie9 = ge9\nelse:\n    ie9b = ge9b",
+    "for a10 in s10:\n    for b10 in a10:\n        pass\n    else:\n        n10 = g10\nelse:\n    m10 = h10",
+    "with w11 as v11:\n    pass\nelse_free = g11",
+]
+
+
 def gen_scope_program(rnd):
     """small nested-scope programs over a tiny name pool, so that inner bindings collide with outer reads"""
     names = ["n1", "n2", "n3", "n4"]
